@@ -33,6 +33,7 @@ def plan(tier, seed):
         shards.append({'name': 'targeted-%d' % i, 'fn': 'shard_targeted', 'args': {'part': i}})
     for i in range(2 if tier == 'quick' else 4):
         shards.append({'name': 'near-identical-subsampled-%d' % i, 'fn': 'shard_near_identical_subsampled', 'args': {'part': i}})
+    shards.append({'name': 'views', 'fn': 'shard_views', 'args': {}})
     shards.append({'name': 'pipeline', 'fn': 'shard_pipeline', 'args': {}})
     return shards
 
@@ -226,6 +227,41 @@ def shard_near_identical_subsampled(sh, part):
                 sh.check('self-rule-only-identical', oracles.close32(got, model_c) or oracles.close32(got, alt), 'self-rule-on-non-identical-pair', wit)
             sh.case((gen.joint_signature(Y, X), variant, r), abs(model_c - plain) > 10 * oracles.TOL_ABS, 'subsampled/' + variant,
                     sample={'variant': variant, 'n': n, 'r': r, 'X': X[:16], 'Y': Y[:16], 'score': got, 'model': model_c} if rep == 0 else None)
+
+
+def shard_views(sh):
+    """Two different vectors that are overlapping views of one buffer (a sequence and its own lag, strided views) are not a self pair;
+    scored through importance_estimator.numba_mi by heuristic name."""
+    import numpy as np
+    from outrank.algorithms import importance_estimator as ie
+    rng, nprng = sh.rng('views'), sh.nprng('views')
+    for t in range(60 if sh.tier == 'quick' else 300):
+        n = rng.choice([30, 200, 1000])
+        card = rng.choice([2, 3, 5, 9])
+        buf = nprng.integers(0, card, n + 60).astype(np.int32)
+        if rng.random() < 0.5:     # auto-correlated sequence
+            for i in range(1, len(buf)):
+                if nprng.random() < 0.6:
+                    buf[i] = buf[i - 1]
+        lag = rng.choice([1, 2, 50])
+        kind = rng.choice(['lag', 'strided', 'same-view'])
+        if kind == 'lag':
+            a, b = buf[:n], buf[lag:lag + n]
+        elif kind == 'strided':
+            a, b = buf[:n:2], buf[1:n:2]
+        else:
+            a, b = buf[:n], buf[:n]
+        for heuristic, corrected in (('MI-numba-randomized', True), ('MI-numba-3mr', False)):
+            ok, got = sh.call('self-rule-only-identical', 'numba_mi', ie.numba_mi, a, b, heuristic, 1.0)
+            if not ok:
+                continue
+            got = float(got)
+            ac, bc = np.ascontiguousarray(a).copy(), np.ascontiguousarray(b).copy()
+            exp = oracles.corrected_model(ac, bc) if corrected else oracles.plugin_mi(ac, bc)
+            ident = bool(np.array_equal(ac, bc))
+            sh.check('self-rule-identical' if ident else 'self-rule-only-identical', oracles.close32(got, exp), 'overlapping-views-scored-as-self-pair' if not ident else 'identical-pair-not-entropy',
+                     lambda: {'kind': kind, 'lag': lag, 'heuristic': heuristic, 'got': got, 'model': exp, 'entropy_of_first': oracles.entropy(ac), 'a': ac[:60], 'b': bc[:60]})
+        sh.case((gen.joint_signature(np.ascontiguousarray(a), np.ascontiguousarray(b)), 'views', kind), kind != 'same-view', 'views/' + kind)
 
 
 def shard_pipeline(sh):
